@@ -41,6 +41,8 @@ pub struct Class {
     class_type: ClassType,
     flags: ClassFlags,
     path_str: Arc<PathBuf>,
+    /// a class declared inside of a function belongs to each call of that function
+    is_module_level: bool,
 }
 
 impl Compile for Class {
@@ -71,12 +73,20 @@ impl Compile for Class {
             arguments.push(dependency.name().to_owned());
         }
 
+        // only what the module itself declares is entered into the module's exports, once; the class of a
+        // function body is made again by every call, as a local of that call
+        let bind_name = if self.is_module_level {
+            instruction!(export_special name id)
+        } else {
+            instruction!(store_fast name)
+        };
+
         Ok(vec![
             CompiledItem::Instruction {
                 id: MAKE_FUNCTION,
                 arguments: arguments.into(),
             },
-            instruction!(export_special name id),
+            bind_name,
         ])
     }
 }
@@ -319,6 +329,8 @@ impl Parser {
 
         let ident_span = ident_node.as_span();
 
+        let is_module_level = input.user_data().is_at_module_level();
+
         let mut ident = Self::ident(ident_node).to_err_vec()?;
         ident.mark_const();
 
@@ -368,6 +380,7 @@ impl Parser {
             flags,
             class_type,
             path_str: input.user_data().bytecode_path(),
+            is_module_level,
         };
 
         Ok(result)
